@@ -96,6 +96,7 @@ type Case struct {
 
 	// not serialised: full lists for the cross-order comparison
 	msrcFull, mdstFull, msrdFull [][]Ixn
+	mig                          *Case // the same queries on the store obtained by migrating the legacy table
 	r1all, r2all       [4][]int
 }
 
@@ -313,6 +314,64 @@ func execute(c *Case) string {
 			c.WMsg = append(c.WMsg, "")
 		}
 	}
+	if p := observe(s, c); p != "" {
+		problem = p
+	}
+	c.mig = nil
+	if c.Legacy && c.WF && problem == "" {
+		if p := migrate(s, c); p != "" {
+			problem = p
+		}
+	}
+	return problem
+}
+
+// migrate rebuilds the legacy table as service-intentions config entries the way the leader's migration does
+// (structs.MigrateIntentions, LegacyNormalize, LegacyValidate, config entry upsert) and asks the same questions.
+// Only for tables the legacy endpoints could have produced: local sources, default namespace, allow/deny.
+func migrate(s *state.Store, c *Case) string {
+	_, rows, err := s.LegacyIntentions(nil, nil)
+	if err != nil {
+		return "LegacyIntentions: " + err.Error()
+	}
+	if len(rows) == 0 {
+		return ""
+	}
+	for _, r := range rows {
+		if r.SourcePeer != "" || r.SourceNS != "default" || r.DestinationNS != "default" || len(r.Permissions) > 0 ||
+			(r.Action != structs.IntentionActionAllow && r.Action != structs.IntentionActionDeny) ||
+			(r.SourceName != "*" && strings.Contains(r.SourceName, "*")) || (r.DestinationName != "*" && strings.Contains(r.DestinationName, "*")) {
+			return ""
+		}
+	}
+	s2, err := newStore(false)
+	if err != nil {
+		return "store setup: " + err.Error()
+	}
+	m := &Case{Legacy: false, WF: true, Qs: c.Qs, Peers: c.Peers, Dflt: c.Dflt, APerm: c.APerm}
+	idx := uint64(100)
+	for _, e := range structs.MigrateIntentions(rows) {
+		idx++
+		if err := e.LegacyNormalize(); err != nil {
+			return "migration LegacyNormalize: " + err.Error()
+		}
+		if err := e.LegacyValidate(); err != nil {
+			return "migration LegacyValidate: " + err.Error()
+		}
+		if err := s2.EnsureConfigEntry(idx, e); err != nil {
+			return "migration EnsureConfigEntry: " + err.Error()
+		}
+	}
+	if p := observe(s2, m); p != "" {
+		return "migrated store: " + p
+	}
+	c.mig = m
+	return ""
+}
+
+// observe asks every question of the case on store s and fills the observation fields of c.
+func observe(s *state.Store, c *Case) string {
+	problem := ""
 	_, all, _, err := s.Intentions(nil, nil)
 	if err != nil {
 		return "Intentions: " + err.Error()
@@ -445,28 +504,131 @@ func spec(ns, name string) int {
 	return n
 }
 
-type fail struct{ kind, detail string }
+// A failure of the direct oracle.  [cause] says whether one of the RECORDED weaknesses of the code explains
+// exactly this failure (the offending intention / query / decision, not the case as a whole):
+//   peer-twin  the extra element of a source match is a peered intention next to a local twin with the same names
+//   case-fold  the observed answer is what results when the index lookup of that route folds letter case
+//   dest-kind  the destination's name has a service-defaults entry with a Destination block
+// "" = unexplained.  Only (kind, cause) pairs listed in known_findings.json are tolerated.
+type fail struct{ kind, detail, cause string }
 
-// oracleCase returns the first failure of every kind.
+// oracleCase returns the first failure of every (kind, cause).
 func oracleCase(c *Case) []*fail {
 	var out []*fail
 	seen := map[string]bool{}
 	for _, f := range oracleAll(c) {
-		if !seen[f.kind] {
-			seen[f.kind] = true
+		if !seen[f.kind+"/"+f.cause] {
+			seen[f.kind+"/"+f.cause] = true
 			out = append(out, f)
 		}
 	}
 	return out
 }
 
-func hasKind(fs []*fail, kind string) *fail {
+func hasKind(fs []*fail, kind, cause string) *fail {
 	for _, f := range fs {
-		if f.kind == kind {
+		if f.kind == kind && f.cause == cause {
 			return f
 		}
 	}
 	return nil
+}
+
+func fold(s string) string { return strings.ToLower(s) }
+
+func patCoversFold(pns, pname, ns, name string) bool {
+	return (pns == "*" || fold(pns) == fold(ns)) && (pname == "*" || fold(pname) == fold(name))
+}
+
+func moreSpecific(x, y *Ixn) int { // 1: x above y, 0: tie, -1: below
+	sx := [2]int{spec(x.DNS, x.DName), spec(x.SNS, x.SName)}
+	sy := [2]int{spec(y.DNS, y.DName), spec(y.SNS, y.SName)}
+	switch {
+	case sx == sy:
+		return 0
+	case sx[0] > sy[0] || (sx[0] == sy[0] && sx[1] > sy[1]):
+		return 1
+	}
+	return -1
+}
+
+func bestOf(all []Ixn, pred func(x *Ixn) bool) (best *Ixn, tie bool) {
+	for k := range all {
+		x := &all[k]
+		if !pred(x) {
+			continue
+		}
+		if best == nil {
+			best = x
+			continue
+		}
+		switch moreSpecific(x, best) {
+		case 0:
+			tie = true
+		case 1:
+			best, tie = x, false
+		}
+	}
+	return
+}
+
+func summaryWant(best *Ixn, cb [2]bool) int {
+	want := 0
+	if best == nil {
+		if cb[0] {
+			want = 1
+		}
+		return want
+	}
+	if best.NPerm > 0 {
+		want |= 2
+		if cb[1] {
+			want |= 1
+		}
+	} else if best.Act == "allow" {
+		want |= 1
+	}
+	if best.SName != "*" && best.DName != "*" {
+		want |= 4
+	}
+	return want
+}
+
+// destKinds: lower-cased names that got a service-defaults entry with a Destination block in this history
+func destKinds(c *Case) map[string]bool {
+	out := map[string]bool{}
+	for k, o := range c.Ops {
+		if o.Kind == "sdest" && k < len(c.WRes) && c.WRes[k] == 0 {
+			out[fold(o.Name)] = true
+		}
+	}
+	return out
+}
+
+// asBuilt: the decision a route gives when the recorded weaknesses [useFold], [useDK] are taken into account.
+// Used ONLY to attribute a failure to a recorded finding; the property itself is bestOf with exact covering.
+func asBuilt(c *Case, dk map[string]bool, route int, useFold, useDK bool, peer string, qs, qd [2]string, cb [2]bool) (int, bool) {
+	best, tie := bestOf(c.All, func(x *Ixn) bool {
+		if x.Peer != peer {
+			return false
+		}
+		if route == 2 { // list looked up by destination, decided on the source
+			d := patCovers(x.DNS, x.DName, qd[0], qd[1])
+			if useFold {
+				d = patCoversFold(x.DNS, x.DName, qd[0], qd[1])
+			}
+			return d && patCovers(x.SNS, x.SName, qs[0], qs[1])
+		}
+		sm := patCovers(x.SNS, x.SName, qs[0], qs[1])
+		if useFold && c.Legacy { // only the legacy source index folds
+			sm = patCoversFold(x.SNS, x.SName, qs[0], qs[1])
+		}
+		if useDK && !c.Legacy && dk[fold(x.DName)] {
+			return false
+		}
+		return sm && patCovers(x.DNS, x.DName, qd[0], qd[1])
+	})
+	return summaryWant(best, cb), tie
 }
 
 func oracleAll(c *Case) (out []*fail) {
@@ -474,7 +636,7 @@ func oracleAll(c *Case) (out []*fail) {
 	chk := func(what string, l []Ixn) *fail {
 		for k := 0; k+1 < len(l); k++ {
 			if !lessSpec(l[k], l[k+1]) {
-				return &fail{"not-sorted", fmt.Sprintf("%s: %v before %v", what, l[k], l[k+1])}
+				return &fail{"not-sorted", fmt.Sprintf("%s: %v before %v", what, l[k], l[k+1]), ""}
 			}
 		}
 		return nil
@@ -489,22 +651,32 @@ func oracleAll(c *Case) (out []*fail) {
 		if f := chk(fmt.Sprintf("match destination %v", c.Qs[k]), c.mdstFull[k]); f != nil {
 			out = append(out, f)
 		}
+		if f := chk(fmt.Sprintf("match source (destination target) %v", c.Qs[k]), c.msrdFull[k]); f != nil {
+			out = append(out, f)
+		}
 	}
 	if !c.WF {
 		return out
 	}
+	dk := destKinds(c)
 	// O-prec: precedence numbers order exactly like (destination specificity, source specificity)
-	for _, a := range c.All {
-		for _, b := range c.All {
-			sa := [2]int{spec(a.DNS, a.DName), spec(a.SNS, a.SName)}
-			sb := [2]int{spec(b.DNS, b.DName), spec(b.SNS, b.SName)}
-			more := sa[0] > sb[0] || (sa[0] == sb[0] && sa[1] > sb[1])
-			if more != (a.Prec > b.Prec) {
-				out = append(out, &fail{"precedence-not-specificity", fmt.Sprintf("%v vs %v", a, b)})
+	for i := range c.All {
+		for j := range c.All {
+			a, b := &c.All[i], &c.All[j]
+			if (moreSpecific(a, b) == 1) != (a.Prec > b.Prec) {
+				out = append(out, &fail{"precedence-not-specificity", fmt.Sprintf("%v vs %v", *a, *b), ""})
 			}
 		}
 	}
 	// O-match: match lists are exactly the covering subsets of Store.Intentions
+	localTwin := func(x Ixn) bool {
+		for _, y := range c.All {
+			if y.Peer == "" && y.SNS == x.SNS && y.SName == x.SName && y.DNS == x.DNS && y.DName == x.DName {
+				return true
+			}
+		}
+		return false
+	}
 	for k, q := range c.Qs {
 		wantS, wantD := map[string]bool{}, map[string]bool{}
 		for _, x := range c.All {
@@ -515,26 +687,52 @@ func oracleAll(c *Case) (out []*fail) {
 				wantD[ikey(x)] = true
 			}
 		}
-		cmp := func(side string, want map[string]bool, got []Ixn) *fail {
+		cmp := func(side string, want map[string]bool, got []Ixn) (fs []*fail) {
 			seen := map[string]bool{}
 			for _, x := range got {
 				seen[ikey(x)] = true
-				if !want[ikey(x)] {
-					return &fail{side + "-match-extra", fmt.Sprintf("query %v: %v does not cover it", q, x)}
+				if want[ikey(x)] {
+					continue
 				}
+				cause := ""
+				switch {
+				case side == "src" && !c.Legacy && x.Peer != "" && patCovers(x.SNS, x.SName, q[0], q[1]) && localTwin(x):
+					cause = "peer-twin"
+				case side == "src" && c.Legacy && x.Peer == "" && patCoversFold(x.SNS, x.SName, q[0], q[1]):
+					cause = "case-fold"
+				case side == "dst" && patCoversFold(x.DNS, x.DName, q[0], q[1]):
+					cause = "case-fold"
+				}
+				fs = append(fs, &fail{side + "-match-extra", fmt.Sprintf("query %v: %v does not cover it", q, x), cause})
 			}
 			for _, x := range c.All {
 				if want[ikey(x)] && !seen[ikey(x)] {
-					return &fail{side + "-match-missing", fmt.Sprintf("query %v: %v covers it but is not returned", q, x)}
+					cause := ""
+					if side == "src" && !c.Legacy && dk[fold(x.DName)] {
+						cause = "dest-kind"
+					}
+					fs = append(fs, &fail{side + "-match-missing", fmt.Sprintf("query %v: %v covers it but is not returned", q, x), cause})
 				}
 			}
-			return nil
+			return fs
 		}
-		if f := cmp("src", wantS, c.msrcFull[k]); f != nil {
-			out = append(out, f)
-		}
-		if f := cmp("dst", wantD, c.mdstFull[k]); f != nil {
-			out = append(out, f)
+		out = append(out, cmp("src", wantS, c.msrcFull[k])...)
+		out = append(out, cmp("dst", wantD, c.mdstFull[k])...)
+		// target type "destination": only intentions whose destination is a destination-kind name or the wildcard
+		if !c.Legacy {
+			wantT := map[string]bool{}
+			for _, x := range c.All {
+				if wantS[ikey(x)] && (dk[fold(x.DName)] || x.DName == "*") {
+					wantT[ikey(x)] = true
+				}
+			}
+			for _, f := range cmp("src", wantT, c.msrdFull[k]) {
+				f.kind = "dest-target-" + f.kind
+				if f.cause == "dest-kind" {
+					f.cause = ""
+				}
+				out = append(out, f)
+			}
 		}
 	}
 	// O-decide: the unique most specific covering intention decides, else the default; both routes agree
@@ -543,69 +741,85 @@ func oracleAll(c *Case) (out []*fail) {
 		for pi, peer := range c.Peers {
 			for ks, qs := range c.Qs {
 				for kd, qd := range c.Qs {
-					var best *Ixn
-					tie := false
-					for k := range c.All {
-						x := &c.All[k]
-						if x.Peer != peer || !patCovers(x.SNS, x.SName, qs[0], qs[1]) || !patCovers(x.DNS, x.DName, qd[0], qd[1]) {
-							continue
-						}
-						if best == nil {
-							best = x
-							continue
-						}
-						sx := [2]int{spec(x.DNS, x.DName), spec(x.SNS, x.SName)}
-						sb := [2]int{spec(best.DNS, best.DName), spec(best.SNS, best.SName)}
-						if sx == sb {
-							tie = true
-						} else if sx[0] > sb[0] || (sx[0] == sb[0] && sx[1] > sb[1]) {
-							best, tie = x, false
-						}
-					}
+					best, tie := bestOf(c.All, func(x *Ixn) bool {
+						return x.Peer == peer && patCovers(x.SNS, x.SName, qs[0], qs[1]) && patCovers(x.DNS, x.DName, qd[0], qd[1])
+					})
 					if tie {
-						out = append(out, &fail{"ambiguous-most-specific", fmt.Sprintf("%q %v -> %v", peer, qs, qd)})
+						out = append(out, &fail{"ambiguous-most-specific", fmt.Sprintf("%q %v -> %v", peer, qs, qd), ""})
 						continue
 					}
-					want := 0
-					if best == nil {
-						if cb[0] {
-							want = 1
-						}
-					} else {
-						if best.NPerm > 0 {
-							want |= 2
-							if cb[1] {
-								want |= 1
-							}
-						} else if best.Act == "allow" {
-							want |= 1
-						}
-						if best.SName != "*" && best.DName != "*" {
-							want |= 4
-						}
-					}
+					want := summaryWant(best, cb)
 					got2 := c.r2all[ci][(pi*nq+ks)*nq+kd]
 					if got2 != want {
-						out = append(out, &fail{"decision-not-most-specific", fmt.Sprintf("route match-by-destination: peer %q %v -> %v default_allow=%v allow_perms=%v: got %d want %d (deciding intention %v)", peer, qs, qd, cb[0], cb[1], got2, want, best)})
+						cause := ""
+						if w, t := asBuilt(c, dk, 2, true, false, peer, qs, qd, cb); !t && w == got2 {
+							cause = "case-fold"
+						}
+						out = append(out, &fail{"decision-not-most-specific", fmt.Sprintf("route match-by-destination: peer %q %v -> %v default_allow=%v allow_perms=%v: got %d want %d (deciding intention %v)", peer, qs, qd, cb[0], cb[1], got2, want, best), cause})
 					}
 					if peer == "" {
 						got1 := c.r1all[ci][ks*nq+kd]
 						if got1 != got2 {
-							out = append(out, &fail{"routes-disagree", fmt.Sprintf("%v -> %v default_allow=%v allow_perms=%v: match-by-source gives %d, match-by-destination gives %d", qs, qd, cb[0], cb[1], got1, got2)})
+							cause := ""
+							for _, fl := range []struct {
+								f, d bool
+								n    string
+							}{{true, false, "case-fold"}, {false, true, "dest-kind"}, {true, true, "case-fold+dest-kind"}} {
+								w1, t1 := asBuilt(c, dk, 1, fl.f, fl.d, peer, qs, qd, cb)
+								w2, t2 := asBuilt(c, dk, 2, fl.f, fl.d, peer, qs, qd, cb)
+								if !t1 && !t2 && w1 == got1 && w2 == got2 {
+									cause = fl.n
+									break
+								}
+							}
+							out = append(out, &fail{"routes-disagree", fmt.Sprintf("%v -> %v default_allow=%v allow_perms=%v: match-by-source gives %d, match-by-destination gives %d", qs, qd, cb[0], cb[1], got1, got2), cause})
 						}
 					}
 				}
 			}
 		}
 	}
+	// O-migrate: the legacy table and its migration to config entries (structs.MigrateIntentions) answer alike.
+	// The one recorded divergence: the legacy source index folds case, the config-entry one does not, and two
+	// destinations differing only in case collapse into one entry.  A difference is attributed to it only when it
+	// vanishes on the queries whose names have no differently-spelled twin among the stored names.
+	if c.mig != nil {
+		if d := sameObsOn(c, c.mig, nil); d != "" {
+			stored := map[string]string{}
+			collide := false
+			for _, x := range c.All {
+				for _, n := range []string{x.SName, x.DName} {
+					if o, ok := stored[fold(n)]; ok && o != n {
+						collide = true
+					}
+					stored[fold(n)] = n
+				}
+			}
+			cause := ""
+			if collide {
+				cause = "case-fold"
+			} else if sameObsOn(c, c.mig, func(q [2]string) bool { o, ok := stored[fold(q[1])]; return !ok || o == q[1] }) == "" {
+				cause = "case-fold"
+			}
+			out = append(out, &fail{"representations-disagree", "legacy table vs MigrateIntentions + LegacyNormalize/Validate + EnsureConfigEntry: " + d, cause})
+		}
+	}
 	return out
 }
 
-func sameObs(a, b *Case) string {
+func sameObs(a, b *Case) string { return sameObsOn(a, b, nil) }
+
+// sameObsOn compares the observations of two cases, optionally only on the query entries accepted by okq.
+func sameObsOn(a, b *Case, okq func(q [2]string) bool) string {
 	if fmt.Sprint(a.All) != fmt.Sprint(b.All) {
-		return "Store.Intentions differs"
+		return fmt.Sprintf("Store.Intentions differs: %v vs %v", a.All, b.All)
 	}
+	nq := len(a.Qs)
+	ok := func(k int) bool { return okq == nil || okq(a.Qs[k]) }
 	for k := range a.Qs {
+		if !ok(k) {
+			continue
+		}
 		if fmt.Sprint(a.msrcFull[k]) != fmt.Sprint(b.msrcFull[k]) {
 			return fmt.Sprintf("match by source %v differs", a.Qs[k])
 		}
@@ -613,50 +827,76 @@ func sameObs(a, b *Case) string {
 			return fmt.Sprintf("match by destination %v differs", a.Qs[k])
 		}
 	}
-	if fmt.Sprint(a.r1all) != fmt.Sprint(b.r1all) || fmt.Sprint(a.r2all) != fmt.Sprint(b.r2all) {
-		return "decisions differ"
+	for ci := range a.r1all {
+		for ks := 0; ks < nq; ks++ {
+			for kd := 0; kd < nq; kd++ {
+				if !ok(ks) || !ok(kd) {
+					continue
+				}
+				if a.r1all[ci][ks*nq+kd] != b.r1all[ci][ks*nq+kd] {
+					return fmt.Sprintf("decision (match by source) %v -> %v differs", a.Qs[ks], a.Qs[kd])
+				}
+				for pi := range a.Peers {
+					if a.r2all[ci][(pi*nq+ks)*nq+kd] != b.r2all[ci][(pi*nq+ks)*nq+kd] {
+						return fmt.Sprintf("decision (match by destination) peer %q %v -> %v differs", a.Peers[pi], a.Qs[ks], a.Qs[kd])
+					}
+				}
+			}
+		}
 	}
 	return ""
 }
 
-func lowerASCII(s string) string { return strings.ToLower(s) }
-
-// structured signature of an oracle failure, from the case's own data
-func signature(c *Case, kind string) map[string]interface{} {
-	names := map[string]bool{}
+// orderCause attributes a cross-history difference: "case-fold" when two WRITTEN names differ only in letter
+// case, "peer-twin" when an upsert names a source that an entry of the history holds under two peers.
+func orderCause(a, b *Case) string {
+	names := map[string]string{}
+	mixed := false
 	add := func(n string) {
-		if n != "" {
-			names[n] = true
+		if n == "" {
+			return
 		}
+		if o, ok := names[fold(n)]; ok && o != n {
+			mixed = true
+		}
+		names[fold(n)] = n
 	}
-	shadow := false
-	for _, x := range c.All {
-		add(x.SName)
-		add(x.DName)
-		for _, y := range c.All {
-			if x.SName == y.SName && x.DName == y.DName && x.Peer != y.Peer {
-				shadow = true
+	twin := map[string]bool{}
+	upserted := map[string]bool{}
+	for _, c := range []*Case{a, b} {
+		for _, o := range c.Ops {
+			add(o.Name)
+			if o.Ixn != nil {
+				add(o.Ixn.SName)
+				add(o.Ixn.DName)
+			}
+			for i, s := range o.Srcs {
+				add(s.Name)
+				if o.Kind == "upsert" {
+					upserted[fold(o.Name)+"|"+s.Name] = true
+				}
+				for _, t := range o.Srcs[:i] {
+					if o.Kind == "entry" && t.Name == s.Name && t.Peer != s.Peer {
+						twin[fold(o.Name)+"|"+s.Name] = true
+					}
+				}
 			}
 		}
 	}
-	for _, q := range c.Qs {
-		add(q[1])
+	if mixed {
+		return "case-fold"
 	}
-	for _, o := range c.Ops {
-		add(o.Name)
-		for _, s := range o.Srcs {
-			add(s.Name)
+	for k := range twin {
+		if upserted[k] {
+			return "peer-twin"
 		}
 	}
-	mixed := false
-	low := map[string]string{}
-	for n := range names {
-		if o, ok := low[lowerASCII(n)]; ok && o != n {
-			mixed = true
-		}
-		low[lowerASCII(n)] = n
-	}
-	return map[string]interface{}{"kind": kind, "mixed_case": mixed, "peer_shadow": shadow, "legacy": c.Legacy}
+	return ""
+}
+
+// structured signature of an oracle failure: what failed and which recorded weakness (if any) explains THIS failure
+func signature(c *Case, kind, cause string) map[string]interface{} {
+	return map[string]interface{}{"kind": kind, "cause": cause, "legacy": c.Legacy}
 }
 
 // ------------------------------------------------------------------ shrinking
@@ -668,7 +908,7 @@ func cloneOps(ops []Op) []Op {
 	return out
 }
 
-func shrinkSingle(c *Case, kind string) *Replay {
+func shrinkSingle(c *Case, kind, cause string) *Replay {
 	cur := &Case{Legacy: c.Legacy, WF: c.WF, Ops: cloneOps(c.Ops), Qs: c.Qs, Peers: c.Peers, Dflt: c.Dflt, APerm: c.APerm}
 	changed := true
 	for changed {
@@ -679,17 +919,17 @@ func shrinkSingle(c *Case, kind string) *Replay {
 			if execute(t) != "" {
 				continue
 			}
-			if hasKind(oracleCase(t), kind) != nil {
+			if hasKind(oracleCase(t), kind, cause) != nil {
 				cur, changed = t, true
 				break
 			}
 		}
 	}
 	_ = execute(cur)
-	f := hasKind(oracleCase(cur), kind)
+	f := hasKind(oracleCase(cur), kind, cause)
 	r := &Replay{Legacy: cur.Legacy, Ops: cur.Ops, Qs: cur.Qs, Peers: cur.Peers, Dflt: cur.Dflt, APerm: cur.APerm}
 	if f != nil {
-		r.Reason = f.kind + ": " + f.detail
+		r.Reason = f.kind + " [" + f.cause + "]: " + f.detail
 	}
 	return r
 }
@@ -740,6 +980,7 @@ func shrinkPair(a, b *Case) *Replay {
 type write struct { // one logical intention write
 	Peer, SNS, SName, DNS, DName, Act string
 	NPerm                             int
+	Prec                              int // precedence supplied by the client (must be ignored by the code)
 }
 
 type group struct {
@@ -751,6 +992,7 @@ type group struct {
 	wf      bool
 	prefix  [][]Op // optional per-order prefix histories (stored-order groups)
 	extraQ  []string
+	scripts [][]Op // when set: the cases of the group are these explicit histories (writes/orders unused)
 }
 
 func permutations(n int) [][]int {
@@ -830,9 +1072,9 @@ func buildOps(g *group, gid int, order []int) []Op {
 			if sns == "!noid" {
 				sns = "default"
 			}
-			ops = append(ops, Op{Kind: "lset", Ixn: &Ixn{ID: id, Peer: w.Peer, SNS: sns, SName: w.SName, DNS: w.DNS, DName: w.DName, Act: w.Act, NPerm: w.NPerm}})
+			ops = append(ops, Op{Kind: "lset", Ixn: &Ixn{ID: id, Peer: w.Peer, SNS: sns, SName: w.SName, DNS: w.DNS, DName: w.DName, Act: w.Act, NPerm: w.NPerm, Prec: w.Prec}})
 		case "upsert":
-			ops = append(ops, Op{Kind: "upsert", Name: w.DName, Srcs: []Src{{Peer: w.Peer, Name: w.SName, Act: w.Act, NPerm: w.NPerm}}})
+			ops = append(ops, Op{Kind: "upsert", Name: w.DName, Srcs: []Src{{Peer: w.Peer, Name: w.SName, Act: w.Act, NPerm: w.NPerm, Prec: w.Prec}}})
 			// keep the client view in step (used by later whole-entry writes in mixed mode)
 			var e *ent
 			for _, x := range client {
@@ -847,12 +1089,12 @@ func buildOps(g *group, gid int, order []int) []Op {
 			done := false
 			for k := range e.srcs {
 				if e.srcs[k].Name == w.SName && e.srcs[k].Peer == w.Peer {
-					e.srcs[k] = Src{Peer: w.Peer, Name: w.SName, Act: w.Act, NPerm: w.NPerm}
+					e.srcs[k] = Src{Peer: w.Peer, Name: w.SName, Act: w.Act, NPerm: w.NPerm, Prec: w.Prec}
 					done = true
 				}
 			}
 			if !done {
-				e.srcs = append(e.srcs, Src{Peer: w.Peer, Name: w.SName, Act: w.Act, NPerm: w.NPerm})
+				e.srcs = append(e.srcs, Src{Peer: w.Peer, Name: w.SName, Act: w.Act, NPerm: w.NPerm, Prec: w.Prec})
 			}
 		case "entry":
 			var e *ent
@@ -868,12 +1110,12 @@ func buildOps(g *group, gid int, order []int) []Op {
 			done := false
 			for k := range e.srcs {
 				if e.srcs[k].Name == w.SName && e.srcs[k].Peer == w.Peer {
-					e.srcs[k] = Src{Peer: w.Peer, Name: w.SName, Act: w.Act, NPerm: w.NPerm}
+					e.srcs[k] = Src{Peer: w.Peer, Name: w.SName, Act: w.Act, NPerm: w.NPerm, Prec: w.Prec}
 					done = true
 				}
 			}
 			if !done {
-				e.srcs = append(e.srcs, Src{Peer: w.Peer, Name: w.SName, Act: w.Act, NPerm: w.NPerm})
+				e.srcs = append(e.srcs, Src{Peer: w.Peer, Name: w.SName, Act: w.Act, NPerm: w.NPerm, Prec: w.Prec})
 			}
 			ops = append(ops, Op{Kind: "entry", Name: e.name, Srcs: append([]Src(nil), e.srcs...)})
 		}
@@ -881,36 +1123,37 @@ func buildOps(g *group, gid int, order []int) []Op {
 	return ops
 }
 
-func queriesFor(g *group, ops []Op) ([][2]string, []string) {
+// queriesFor: the query entries and peers of a group, from every name its histories mention (shared by
+// all cases of the group so that their observations can be compared).
+func queriesFor(g *group, histories [][]Op) ([][2]string, []string) {
 	names := map[string]bool{"*": true, "zz": true}
 	nss := map[string]bool{"default": true}
 	peers := map[string]bool{"": true}
-	for _, w := range g.writes {
-		if w.SName != "" {
-			names[w.SName] = true
-		}
-		if w.DName != "" {
-			names[w.DName] = true
-		}
-		if w.Peer != "" && !strings.Contains(w.Peer, "*") {
-			peers[w.Peer] = true
-		}
-		if g.mode == "legacy" {
-			if w.SNS != "" && !strings.HasPrefix(w.SNS, "!") {
-				nss[w.SNS] = true
-			}
-			if w.DNS != "" {
-				nss[w.DNS] = true
-			}
+	addName := func(n string) {
+		if n != "" && (!strings.Contains(n, "*") || n == "*") {
+			names[n] = true
 		}
 	}
-	for _, pre := range g.prefix {
-		for _, o := range pre {
-			names[o.Name] = true
+	for _, ops := range histories {
+		for _, o := range ops {
+			addName(o.Name)
 			for _, s := range o.Srcs {
-				names[s.Name] = true
-				if s.Peer != "" {
+				addName(s.Name)
+				if s.Peer != "" && !strings.Contains(s.Peer, "*") {
 					peers[s.Peer] = true
+				}
+			}
+			if o.Ixn != nil {
+				addName(o.Ixn.SName)
+				addName(o.Ixn.DName)
+				if o.Ixn.SNS != "" {
+					nss[o.Ixn.SNS] = true
+				}
+				if o.Ixn.DNS != "" {
+					nss[o.Ixn.DNS] = true
+				}
+				if o.Ixn.Peer != "" {
+					peers[o.Ixn.Peer] = true
 				}
 			}
 		}
@@ -920,9 +1163,7 @@ func queriesFor(g *group, ops []Op) ([][2]string, []string) {
 	}
 	var ns, nn, pp []string
 	for n := range names {
-		if !strings.Contains(n, "*") || n == "*" {
-			nn = append(nn, n)
-		}
+		nn = append(nn, n)
 	}
 	for n := range nss {
 		ns = append(ns, n)
@@ -939,18 +1180,11 @@ func queriesFor(g *group, ops []Op) ([][2]string, []string) {
 			if a == "*" && b != "*" {
 				continue // not a valid query entry
 			}
+			if a != "default" && a != "*" && b == "zz" {
+				continue // the fresh name once is enough
+			}
 			qs = append(qs, [2]string{a, b})
 		}
-	}
-	if len(qs) > 7 {
-		// keep the query set small: every name in "default", plus the other namespaces with "*" and the first name
-		var keep [][2]string
-		for _, q := range qs {
-			if q[0] == "default" || q[1] == "*" || q[1] == nn[len(nn)-1] {
-				keep = append(keep, q)
-			}
-		}
-		qs = keep
 	}
 	return qs, pp
 }
@@ -1032,6 +1266,9 @@ func genGroups(rng *rand.Rand, tier string) []*group {
 			}
 			if (mode == "entry" || mode == "mixed") && rng.Intn(3) == 0 {
 				w.Peer = []string{"p", "q"}[rng.Intn(2)]
+			}
+			if rng.Intn(2) == 0 {
+				w.Prec = 1 + rng.Intn(12) // a client-supplied Precedence: recomputed by the code
 			}
 			key := w.Peer + "|" + w.SName + "|" + w.DName
 			nameKey := w.SName + "|" + w.DName
@@ -1150,6 +1387,129 @@ func genGroups(rng *rand.Rand, tier string) []*group {
 			{SNS: "default", SName: "web", DNS: "default", DName: "db", Act: "allow"},
 			{SNS: "default", SName: "*", DNS: "default", DName: "db", Act: "deny", Peer: "p"}},
 		orders: permutations(3)})
+	// ---- 6. legacy updates under one UUID (rename, collision, upper-case hex spelling of the same UUID)
+	lid := func(k int, upper bool) string {
+		id := fmt.Sprintf("aaaaaaaa-0000-4000-8000-%012x", 0xabc000+k)
+		if upper {
+			id = strings.ToUpper(id)
+		}
+		return id
+	}
+	lrow := func(id, sn, dn, act string) Op {
+		return Op{Kind: "lset", Ixn: &Ixn{ID: id, SNS: "default", SName: sn, DNS: "default", DName: dn, Act: act}}
+	}
+	gs = append(gs, &group{kind: "legacy-update", mode: "legacy", wf: true, scripts: [][]Op{
+		{lrow(lid(1, false), "web", "db", "allow"), lrow(lid(1, false), "web", "db", "deny")},                                       // same row, new action
+		{lrow(lid(1, false), "web", "db", "allow"), lrow(lid(1, false), "*", "db", "deny")},                                         // rename: precedence 9 -> 8
+		{lrow(lid(1, false), "web", "db", "allow"), lrow(lid(2, false), "api", "db", "deny"), lrow(lid(1, false), "api", "db", "allow")}, // rename collides
+		{lrow(lid(1, false), "web", "db", "allow"), lrow(lid(1, true), "web", "*", "deny")},                                         // same UUID in upper case, renamed
+		{lrow(lid(1, false), "web", "db", "allow"), lrow(lid(1, true), "web", "db", "deny")},                                        // same UUID in upper case, same names
+		{lrow(lid(1, true), "*", "*", "deny"), lrow(lid(2, false), "web", "db", "allow"), lrow(lid(1, false), "web", "*", "allow"), lrow(lid(2, true), "*", "db", "deny")},
+	}})
+	nUpd := 40
+	if tier == "thorough" {
+		nUpd = 800
+	}
+	for k := 0; k < nUpd; k++ {
+		n := 3 + rng.Intn(4)
+		var ops []Op
+		pool := []string{"web", "api", "db", "*"}
+		for len(ops) < n {
+			ops = append(ops, lrow(lid(rng.Intn(3), rng.Intn(4) == 0), pool[rng.Intn(4)], pool[rng.Intn(4)], []string{"allow", "deny"}[rng.Intn(2)]))
+		}
+		gs = append(gs, &group{kind: "legacy-update", mode: "legacy", wf: true, scripts: [][]Op{ops}})
+	}
+	// ---- 7. names that differ only in case x peers x whole entries (the folding replace of the config-entry table)
+	ent := func(name string, srcs ...Src) Op { return Op{Kind: "entry", Name: name, Srcs: srcs} }
+	ups := func(dn string, sv Src) Op { return Op{Kind: "upsert", Name: dn, Srcs: []Src{sv}} }
+	sv := func(peer, name, act string) Src { return Src{Peer: peer, Name: name, Act: act} }
+	caseQ := []string{"web", "Web", "db", "DB", "Db", "api"}
+	gs = append(gs, &group{kind: "mixed-case-entry", mode: "entry", wf: true, extraQ: caseQ, scripts: [][]Op{
+		{ent("db", sv("", "web", "allow")), ent("DB", sv("", "api", "deny"))},
+		{ent("DB", sv("", "api", "deny")), ent("db", sv("", "web", "allow"))},
+		{ent("db", sv("", "Web", "deny"), sv("", "web", "allow"), sv("", "*", "deny"))},
+		{ent("db", sv("p", "Web", "deny"), sv("", "web", "allow"))},
+		{ent("Db", sv("p", "web", "deny"), sv("", "web", "allow"), sv("", "Web", "deny")), ups("db", sv("", "api", "allow"))},
+		{ent("db", sv("", "web", "allow")), ups("DB", sv("", "api", "deny")), ups("Db", sv("", "Web", "deny"))},
+		{ups("db", sv("", "web", "allow")), ent("DB", sv("q", "web", "deny"), sv("", "Web", "allow"))},
+	}})
+	nMC := 30
+	if tier == "thorough" {
+		nMC = 600
+	}
+	for k := 0; k < nMC; k++ {
+		n := 2 + rng.Intn(4)
+		var ops []Op
+		srcPool := []string{"web", "Web", "api", "*"}
+		dstPool := []string{"db", "DB", "Db", "api", "*"}
+		for len(ops) < n {
+			mk := func() Src {
+				x := sv("", srcPool[rng.Intn(4)], []string{"allow", "deny"}[rng.Intn(2)])
+				if rng.Intn(4) == 0 {
+					x.Peer = "p"
+				}
+				return x
+			}
+			if rng.Intn(2) == 0 {
+				x := mk()
+				x.Peer = ""
+				ops = append(ops, ups(dstPool[rng.Intn(5)], x))
+			} else {
+				e := ent(dstPool[rng.Intn(5)])
+				seen := map[string]bool{}
+				for j := 0; j < 1+rng.Intn(3); j++ {
+					x := mk()
+					if !seen[x.Peer+"|"+x.Name] {
+						seen[x.Peer+"|"+x.Name] = true
+						e.Srcs = append(e.Srcs, x)
+					}
+				}
+				ops = append(ops, e)
+			}
+		}
+		gs = append(gs, &group{kind: "mixed-case-entry", mode: "mixed", wf: true, extraQ: caseQ, scripts: [][]Op{ops}})
+	}
+	// ---- 8. destination-kind services: a service-defaults entry with a Destination block for the destination
+	sd := func(n string) Op { return Op{Kind: "sdest", Name: n} }
+	gs = append(gs, &group{kind: "dest-kind", mode: "upsert", wf: true, scripts: [][]Op{
+		{sd("db"), ups("db", sv("", "web", "deny")), ups("*", sv("", "web", "allow"))},
+		{ups("db", sv("", "web", "deny")), ups("*", sv("", "web", "allow")), sd("db")},
+		{sd("DB"), ent("db", sv("", "web", "deny"), sv("p", "web", "allow"), sv("", "*", "allow"))},
+		{sd("db"), sd("api"), ups("db", sv("", "web", "allow")), ups("api", sv("", "*", "deny")), ups("cache", Src{Name: "web", NPerm: 1}), ups("*", sv("", "*", "deny"))},
+		{sd("zz"), ups("db", sv("", "web", "deny"))},
+	}})
+	nDK := 20
+	if tier == "thorough" {
+		nDK = 400
+	}
+	for k := 0; k < nDK; k++ {
+		n := 3 + rng.Intn(3)
+		var ws []write
+		keys := map[string]bool{}
+		for len(ws) < n {
+			w := write{SNS: "default", DNS: "default", SName: big[rng.Intn(len(big))], DName: big[rng.Intn(len(big))], Act: []string{"allow", "deny"}[rng.Intn(2)]}
+			if keys[w.SName+"|"+w.DName] {
+				continue
+			}
+			keys[w.SName+"|"+w.DName] = true
+			ws = append(ws, w)
+		}
+		pre := []Op{sd(big[rng.Intn(4)])}
+		if rng.Intn(2) == 0 {
+			pre = append(pre, sd(big[rng.Intn(4)]))
+		}
+		orders := somePerms(rng, n, 4)
+		var prefix [][]Op
+		for range orders {
+			prefix = append(prefix, pre)
+		}
+		gs = append(gs, &group{kind: "dest-kind", mode: []string{"upsert", "entry"}[rng.Intn(2)], writes: ws, orders: orders, commute: true, wf: true, prefix: prefix})
+	}
+	// ---- 9. entry-level validation: empty entry name, no sources (codes 1 and 3), then a good write
+	gs = append(gs, &group{kind: "malformed", mode: "entry", wf: true, scripts: [][]Op{
+		{ent("", sv("", "web", "allow")), ent("db", sv("", "web", "allow"))},
+		{ent("db"), ent("db", sv("", "web", "deny")), ent("db")},
+	}})
 	return gs
 }
 
@@ -1288,7 +1648,7 @@ func replay(path string) int {
 		}
 		fs := oracleCase(c)
 		for _, f := range fs {
-			fmt.Printf("%s ORACLE FAILS: %s: %s\n", tag, f.kind, f.detail)
+			fmt.Printf("%s ORACLE FAILS: %s [cause: %q]: %s\n", tag, f.kind, f.cause, f.detail)
 			rc = 1
 		}
 		if len(fs) == 0 {
@@ -1313,11 +1673,12 @@ func main() {
 	out := flag.String("out", "", "output file (JSON lines)")
 	rep := flag.String("replay", "", "replay a case file")
 	coqMax := flag.Int("coqmax", 0, "max cases marked for evaluation in Coq (0 = tier default)")
+	salt := flag.Int64("salt", 0, "mixed into the seed (the check derives it from the commit under test so that runs on different trees sample different slices)")
 	flag.Parse()
 	if *rep != "" {
 		os.Exit(replay(*rep))
 	}
-	rng := rand.New(rand.NewSource(*seed))
+	rng := rand.New(rand.NewSource(*seed*1000003 + *salt))
 	groups := genGroups(rng, *tier)
 
 	var cases []*Case
@@ -1325,15 +1686,23 @@ func main() {
 	spans := make([]span, len(groups))
 	for gi, g := range groups {
 		spans[gi].from = len(cases)
-		for oi, order := range g.orders {
-			ops := buildOps(g, gi, order)
-			if len(g.prefix) > 0 {
-				ops = append(cloneOps(g.prefix[oi]), ops...)
+		var histories [][]Op
+		if len(g.scripts) > 0 {
+			histories = g.scripts
+		} else {
+			for oi, order := range g.orders {
+				ops := buildOps(g, gi, order)
+				if len(g.prefix) > 0 {
+					ops = append(cloneOps(g.prefix[oi]), ops...)
+				}
+				histories = append(histories, ops)
 			}
-			qs, peers := queriesFor(g, ops)
+		}
+		qs, peers := queriesFor(g, histories)
+		for _, ops := range histories {
 			k := len(cases)
 			cases = append(cases, &Case{ID: k, Group: gi, GKind: g.kind, Mode: g.mode, Commute: g.commute, WF: g.wf,
-				Legacy: g.mode == "legacy", Ops: ops, Qs: qs, Peers: peers, Dflt: k%2 == 1, APerm: (k/2)%2 == 1})
+				Legacy: g.mode == "legacy", Ops: cloneOps(ops), Qs: qs, Peers: peers, Dflt: k%2 == 1, APerm: (k/2)%2 == 1})
 		}
 		spans[gi].to = len(cases)
 	}
@@ -1341,7 +1710,7 @@ func main() {
 	problems := make([]string, len(cases))
 	var wg sync.WaitGroup
 	ch := make(chan int, 64)
-	for w := 0; w < 6; w++ {
+	for w := 0; w < 4; w++ {
 		wg.Add(1)
 		go func() {
 			defer wg.Done()
@@ -1357,8 +1726,8 @@ func main() {
 	wg.Wait()
 
 	// oracle: per case, then across the orders of a group
-	addFail := func(c *Case, kind, detail string, shrunk *Replay) {
-		c.Fails = append(c.Fails, Fail{Kind: kind, Detail: detail, Sig: signature(c, kind), Shrunk: shrunk})
+	addFail := func(c *Case, kind, detail, cause string, shrunk *Replay) {
+		c.Fails = append(c.Fails, Fail{Kind: kind, Detail: detail, Sig: signature(c, kind, cause), Shrunk: shrunk})
 		if c.Oracle != "" {
 			c.Oracle += ","
 		}
@@ -1366,11 +1735,11 @@ func main() {
 	}
 	for k, c := range cases {
 		if problems[k] != "" {
-			addFail(c, "harness-problem", problems[k], nil)
+			addFail(c, "harness-problem", problems[k], "", nil)
 			continue
 		}
 		for _, f := range oracleCase(c) {
-			addFail(c, f.kind, f.detail, shrinkSingle(c, f.kind))
+			addFail(c, f.kind, f.detail, f.cause, shrinkSingle(c, f.kind, f.cause))
 		}
 	}
 	for gi, g := range groups {
@@ -1385,10 +1754,10 @@ func main() {
 			}
 			if d := sameObs(first, c); d != "" {
 				kind := "order-dependent"
-				if len(g.prefix) > 0 {
+				if g.kind == "stored-order" {
 					kind = "stored-order-dependent"
 				}
-				addFail(c, kind, d, shrinkPair(first, c))
+				addFail(c, kind, d, orderCause(first, c), shrinkPair(first, c))
 			}
 		}
 	}
